@@ -15,7 +15,14 @@ finite = gen.finite
 
 
 def _times(draw, n):
-    kind = draw(st.sampled_from(["int", "float", "neg", "irregular", "offset", "tiny"]))
+    kind = draw(st.sampled_from(["int", "float", "neg", "irregular", "offset", "tiny", "big-int"]))
+    if kind == "big-int":  # integer time stamps (nanoseconds since the epoch) that a double cannot tell apart
+        t = 1_760_000_000_000_000_000 + draw(st.integers(0, 10**6))
+        out = []
+        for _ in range(n):
+            out.append(t)
+            t += draw(st.sampled_from([1, 3, 100, 255, 1000]))
+        return out
     if kind == "int":
         t0 = draw(st.integers(-5, 5))
         return [t0 + i for i in range(n)]
@@ -255,11 +262,20 @@ def frame_has_overlap(frame, geom, tol):
     return False
 
 
+def tkey(t):
+    """exact value of a time stamp (int, float or numpy scalar) - integers beyond 2**53 must not be rounded"""
+    from fractions import Fraction
+
+    if isinstance(t, (int, np.integer)) and not isinstance(t, bool):
+        return Fraction(int(t))
+    return Fraction(float(t))
+
+
 def identify(tracks, etc):
     """Map every track entry to (frame index, index in frame); returns (list of lists, problems)."""
     tindex = {}
     for k, t in enumerate(etc.times):
-        tindex.setdefault(float(t), k)
+        tindex.setdefault(tkey(t), k)
     pools = []
     for e in etc.emulsions:
         pool = {}
@@ -271,7 +287,7 @@ def identify(tracks, etc):
     for tr in tracks:
         ent = []
         for t, d in zip(tr.times, tr.droplets):
-            k = tindex.get(float(t))
+            k = tindex.get(tkey(t))
             if k is None:
                 problems.append(f"track entry with time {t!r} that is not a frame time")
                 ent.append(None)
